@@ -223,6 +223,8 @@ class Interp:
                 v.name = f"{mod}.{name}"
                 v.fresh = False
                 v.shared = True  # module-level AST constant
+            if isinstance(v, Dct):
+                v.shared_name = f"{mod}.{name}"  # module-level dict: other code may have filled it
         elif name in m.imports:
             v = self.import_value(m.imports[name])
         if v is not None:
@@ -532,6 +534,9 @@ class Interp:
             return Sym(f"{v.tag}.args[{idx.v}]", typ="str")
         return Sym(f"{tagof(v)}[{tagof(idx)}]", origin=("index", v, idx))
 
+    def ev_Await(self, e, env):
+        return self.ev(e.value, env)
+
     def ev_Starred(self, e, env):
         return self.ev(e.value, env)
 
@@ -823,11 +828,16 @@ class Interp:
 
     def call_func(self, f: Func, args, kwargs, site) -> Val:
         key = f"{f.mod}.{f.qual}"
+        icpt = getattr(self.hooks, "intercept", None)
+        if icpt is not None:
+            r = icpt(self, key, args, kwargs, site)
+            if r is not NotImplemented:
+                return r
         if self.depth >= self.MAX_DEPTH or self.callstack.count(key) >= 2:
             self.effect("call", key, args, kwargs, site)
             return Sym(f"{key}()@{self.siteid(site)}", origin=("call", key, args, kwargs))
         node = f.node
-        if isinstance(node, ast.AsyncFunctionDef) or any(isinstance(n, (ast.Yield, ast.YieldFrom)) for n in ast.walk(node)):
+        if any(isinstance(n, (ast.Yield, ast.YieldFrom)) for n in ast.walk(node)):
             self.effect("call", key, args, kwargs, site)
             return Sym(f"{key}()@{self.siteid(site)}", origin=("call", key, args, kwargs))
         env = Env(f.mod, f.qual, f.closure)
@@ -930,6 +940,8 @@ class Interp:
             return Sym(f"{b}({tagof(a0)})", origin=("call", b, args, kwargs), typ="bool")
         if b == "print":
             return Const(None)
+        if b == "map" and len(args) == 2 and isinstance(args[1], (Lst, Tup)) and not getattr(args[1], "open", False):
+            return Lst([self.call(args[0], [x], {}, site, env) for x in args[1].items])
         if b in ("int", "min", "max", "bool", "float", "repr", "map", "zip", "range", "getattr", "type", "id", "hash"):
             if b == "bool" and a0 is not None:
                 return Const(self.truth(a0))
@@ -1109,6 +1121,8 @@ class Interp:
                 k = a0.v if isinstance(a0, Const) else tagof(a0)
                 if k in recv.items:
                     return recv.items[k]
+                if getattr(recv, "shared_name", None):
+                    return Sym(f"{recv.shared_name}.get({tagof(a0)})", origin=("dictget", recv, a0))
                 if isinstance(a0, Const) or not recv.items:
                     return args[1] if len(args) > 1 else Const(None)
                 return Sym(f"{recv.tag}.get({tagof(a0)})", origin=("dictget", recv, a0))
@@ -1386,13 +1400,17 @@ class Interp:
         if isinstance(s, ast.Try):
             self.st_try(s, env)
             return
-        if isinstance(s, ast.With):
+        if isinstance(s, (ast.With, ast.AsyncWith)):
             for it in s.items:
                 v = self.ev(it.context_expr, env)
                 self.effect("with", v, it.context_expr)
                 if it.optional_vars is not None:
                     self.assign(it.optional_vars, v, env, s)
-            self.block(s.body, env)
+            try:
+                self.block(s.body, env)
+            finally:
+                for it in reversed(s.items):
+                    self.effect("with-exit", None, it.context_expr)
             return
         if isinstance(s, ast.FunctionDef):
             env.vars[s.name] = Func(env.mod, f"{env.fn}.<locals>.{s.name}", s, closure=env)
